@@ -16,7 +16,9 @@ chk("C13", "exploration", "property-based testing (Hypothesis): operation histor
     "Generated histories on DelayManager (machine- and mode-owned), clock intervals and a generated timer device run on "
     "a virtual loop whose wake-ups are late by generated amounts; an online reference model validates every callback/"
     "tick/complete event (exactly once, stored kwargs, deadline window [d, d+J], none after remove/replace/mode stop, "
-    "check() truthful after every operation and inside callbacks, k-th tick at s+k*I without drift). Search, not proof.",
+    "check() truthful after every operation and inside callbacks, k-th tick at s+k*I without drift). Mode stops also "
+    "happen with the mode_<n>_stopping queue held by a waiting handler while time passes and delays are queried/run. "
+    "Search, not proof.",
     "Lateness <= 4 ms per wake-up; coincidences within 1 us are left open; timer notifications other than tick/complete "
     "are not asserted.",
     "DESIGN.md §4 C13")
@@ -97,7 +99,10 @@ chk("C12", "exploration", "property-based testing (Hypothesis): generated sectio
     "(type, range, enum, device, container members, recursively through sub-configs), no unknown key was accepted, no "
     "provided key dropped and the spec is unchanged. Time strings: accepted values equal number x unit within 1 ms and the "
     "Unknown keys that are not strings (7:, 1.5:, true:, ~:) and NaN/inf for numeric validators are generated. "
-    "documented forms are accepted. Search, not proof.",
+    "documented forms are accepted. Sub-check players: generated variable_player / event_player / score_queue_player "
+    "entries (names with an illegal character at the start or after a legal start, optional {condition}, dict/list/string "
+    "form) must be rejected or come back with names of letters, digits, dashes and underscores only, one entry per name, "
+    "and legal entries must be accepted. Search, not proof.",
     "Any exception is a rejection; None is allowed everywhere; colours checked for shape only; pow2 returns its input unconverted (repo test).",
     "DESIGN.md §4 C12")
 chk("C08", "exploration", "property-based testing (Hypothesis): generated coil limit configurations and request histories vs. an invariant over the recorded platform-driver calls",
@@ -154,7 +159,10 @@ chk("C11", "exploration", "property-based testing (Hypothesis): generated multi-
     "other players' turns; persisted state at a player's next ball equals the state before the drain that ended their "
     "previous ball (with the documented achievement mapping); a new game starts from the first game's initial state; "
     "player_<var> events chain (prev_value, change, player_num) and no tracked variable changes without an event. "
-    "Search, not proof.",
+    "Sub-check twin (metamorphic): every player - and player 1 of the next game - gets the same generated inputs at the same "
+    "offset into their first ball (logic blocks, shots, shot group rotation, achievement group select/rotate/start, timers "
+    "with timed pauses, one not running until started); all per-player records must then be equal, whatever the earlier "
+    "players did after their record was taken. Search, not proof.",
     "Faked ball hardware; timers only checked for isolation; restore sampled 100 ms after ball_started.",
     "DESIGN.md §4 C11")
 chk("C10", "exploration", "property-based testing (Hypothesis): generated enable/disable/flip/game histories vs. an invariant over the platform's rule table",
@@ -197,7 +205,8 @@ chk("C14", "fault_enumeration", "property-based testing (Hypothesis): generated 
     "full-state reports, ignored messages, line noise and (OPP) frames with corrupted payload/CRC bytes, whole and split "
     "at generated points down to single bytes: decoded messages and final switch states must not depend on the "
     "splitting, corrupted frames (CRC recomputed bitwise, independently) and noise must change nothing and decoding must "
-    "resume, and states must equal the last report per board (NO/NC). PKONE framing is checked on a bare communicator. "
+    "resume, and states must equal the last report per board (NO/NC); the same on a second chain (sub-check opp_matrix) "
+    "with an inputs-only board, a board that has a switch matrix but no direct inputs, and a board with both. PKONE framing is checked on a bare communicator. "
     "FAST flow control runs a scripted board with generated latencies, unrelated messages and a lost response: write "
     "order, nothing written before the awaited confirmation (known finding), retry on loss (known finding), queue not "
     "blocked. Search over faults, not proof.",
@@ -206,7 +215,8 @@ chk("C14", "fault_enumeration", "property-based testing (Hypothesis): generated 
 chk("C15", "fault_enumeration", "property-based testing (Hypothesis): generated save/shutdown histories under an owned thread schedule with injected I/O errors and crash points; save -> reboot -> load round-trip",
     "The real DataManager writer thread runs under a cooperative baton (sleep, dirty-flag wait, deepcopy, open, each file "
     "write, close, os.replace are yield points) so the generator chooses the interleaving of save_all() calls, writer "
-    "steps and shutdown, plus one injected OSError or one simulated process death at a generated point of a save. "
+    "steps and shutdown, plus one injected OSError, one write failure that is no OSError (UnicodeEncodeError/ValueError from "
+    "the text layer half way through the temp file) or one simulated process death at a generated point of a save. "
     "After a clean shutdown the file must parse to the last saved value; after a crash it must be absent or a complete "
     "saved version, never torn; a save made after a failed write must reach the disk and the writer must not wedge. "
     "Machine variables (generic and config-declared, YAML-lookalike strings, nested values, expiry on both sides of the "
